@@ -31,7 +31,7 @@ use metrique::writer::BoxEntrySink;
 use metrique::CloseValue;
 use metrique_aggregation::aggregate;
 use metrique_aggregation::aggregator::{Aggregate, KeyedAggregator};
-use metrique_aggregation::sink::{CloseAndMergeOnDrop, MutexSink, NonAggregatedSink, TeeSink, WorkerSink, non_aggregate};
+use metrique_aggregation::sink::{MergeOnDrop, MutexSink, NonAggregatedSink, TeeSink, WorkerSink, non_aggregate};
 use metrique_aggregation::traits::{AggregateSink, AggregateSinkRef, AggregateStrategy, FlushableSink, Key, RootSink};
 use metrique_aggregation::value::{Distribution, Flatten, KeepLast, MergeOptions, Sum};
 use metrique_writer::sink::FlushWait;
@@ -173,6 +173,53 @@ impl Key<CallEntry> for WeakKeyExtractor {
 impl AggregateStrategy for ByEndpointWeak {
     type Source = CallEntry;
     type Key = WeakKeyExtractor;
+}
+
+/// `MergeOnDrop<T, Sink>` (the `#[aggregate(direct)]` guard) needs `T: AggregateStrategy<Source = T>`:
+/// the already closed entries are given that impl, reusing the generated `Merge`/`Key` impls, so
+/// that both guard kinds feed the same sinks
+impl AggregateStrategy for CallEntry {
+    type Source = CallEntry;
+    type Key = CallKeyExtractor;
+}
+impl AggregateStrategy for PlainEntry {
+    type Source = PlainEntry;
+    type Key = metrique_aggregation::value::NoKey;
+}
+
+/// a merge-on-drop guard of either kind (its `Drop` does the merge)
+type AnyGuard = Box<dyn std::any::Any + Send>;
+
+/// the three ways a guard goes out of scope
+fn drop_guard(how: char, g: AnyGuard) {
+    match how {
+        // dropped by an unwinding panic, the panic contained by `catch_unwind`
+        'u' => {
+            let r = std::panic::catch_unwind(std::panic::AssertUnwindSafe(move || {
+                let _unit_of_work = g;
+                panic!("unit of work failed");
+            }));
+            assert!(r.is_err());
+        }
+        // dropped by an unwinding panic on a spawned thread, contained by `join`
+        'j' => {
+            let r = std::thread::spawn(move || {
+                let _unit_of_work = g;
+                panic!("unit of work failed");
+            })
+            .join();
+            assert!(r.is_err());
+        }
+        _ => drop(g),
+    }
+}
+
+/// `RootSink` over a keyed aggregator the harness can still flush: `MutexSink<SharedKeyed>`
+struct SharedKeyed(Arc<Mutex<KeyedAggregator<Call, BoxEntrySink>>>);
+impl AggregateSink<CallEntry> for SharedKeyed {
+    fn merge(&mut self, entry: CallEntry) {
+        self.0.lock().unwrap().merge(entry)
+    }
 }
 
 // ------------------------------------------------------------------------------------------------
@@ -575,15 +622,24 @@ fn run_keyed(c: &Case) -> Run {
     let ts = test_entry_sink();
     let mut run = Run::default();
     let r = catch(|| {
-        let mut agg: KeyedAggregator<Call, BoxEntrySink> = KeyedAggregator::new(ts.sink.clone());
+        let agg = Arc::new(Mutex::new(KeyedAggregator::<Call, BoxEntrySink>::new(ts.sink.clone())));
+        let root = MutexSink::new(SharedKeyed(agg.clone()));
+        let mut guards: Vec<Option<AnyGuard>> = vec![];
         let mut seen = 0;
         let mut epochs = vec![];
         for t in &c.toks {
-            match (t.tag, &t.input) {
-                ('m', Some(i)) => agg.merge(i.call().close()),
-                ('r', Some(i)) => agg.merge_ref(&i.call().close()),
-                ('f', None) => {
-                    agg.flush();
+            match (t.tag, t.idx, &t.input) {
+                ('m', None, Some(i)) => agg.lock().unwrap().merge(i.call().close()),
+                ('r', None, Some(i)) => agg.lock().unwrap().merge_ref(&i.call().close()),
+                ('g', None, Some(i)) => guards.push(Some(Box::new(i.call().close_and_merge(root.clone())))),
+                ('h', None, Some(i)) => guards.push(Some(Box::new(MergeOnDrop::new(i.call().close(), root.clone())))),
+                ('d' | 'u' | 'j', Some(g), None) => {
+                    if let Some(g) = guards.get_mut(g).and_then(|s| s.take()) {
+                        drop_guard(t.tag, g);
+                    }
+                }
+                ('f', None, None) => {
+                    agg.lock().unwrap().flush();
                     let es = ts.inspector.entries();
                     epochs.push((es[seen..].iter().map(agg_of).collect::<Vec<_>>(), vec![]));
                     seen = es.len();
@@ -653,14 +709,15 @@ fn run_mutex(c: &Case) -> Run {
     let mut run = Run::default();
     let r = catch(|| {
         let parent = ParentM { calls: MutexSink::new(Aggregate::default()) };
-        let mut guards: Vec<Option<CloseAndMergeOnDrop<Plain, MutexSink<Aggregate<Plain>>>>> = vec![];
+        let mut guards: Vec<Option<AnyGuard>> = vec![];
         for t in &c.toks {
             match (t.tag, t.idx, &t.input) {
-                ('g', None, Some(i)) => guards.push(Some(i.plain().close_and_merge(parent.calls.clone()))),
+                ('g', None, Some(i)) => guards.push(Some(Box::new(i.plain().close_and_merge(parent.calls.clone())))),
+                ('h', None, Some(i)) => guards.push(Some(Box::new(MergeOnDrop::new(i.plain().close(), parent.calls.clone())))),
                 ('m', None, Some(i)) => RootSink::merge(&parent.calls, i.plain().close()),
-                ('d', Some(g), None) => {
-                    if let Some(slot) = guards.get_mut(g) {
-                        drop(slot.take());
+                ('d' | 'u' | 'j', Some(g), None) => {
+                    if let Some(g) = guards.get_mut(g).and_then(|s| s.take()) {
+                        drop_guard(t.tag, g);
                     }
                 }
                 _ => panic!("harness: bad token {}", t.encode()),
@@ -724,7 +781,7 @@ fn run_worker(c: &Case) -> Run {
     let rt = rt();
     let first: Worker = WorkerSink::new(Probe { inner: tee, dropped: dtx }, Duration::from_secs(3600));
     let mut handles: Vec<Option<Worker>> = vec![Some(first)];
-    let mut guards: Vec<Option<CloseAndMergeOnDrop<Call, Worker>>> = vec![];
+    let mut guards: Vec<Option<AnyGuard>> = vec![];
     let r = catch(|| {
         for t in &c.toks {
             let live = |handles: &Vec<Option<Worker>>, h: usize| handles.get(h).map(|x| x.is_some()).unwrap_or(false);
@@ -736,12 +793,17 @@ fn run_worker(c: &Case) -> Run {
                 }
                 ('g', Some(h), Some(i)) => {
                     if live(&handles, h) {
-                        guards.push(Some(i.call().close_and_merge(handles[h].as_ref().unwrap().clone())));
+                        guards.push(Some(Box::new(i.call().close_and_merge(handles[h].as_ref().unwrap().clone()))));
                     }
                 }
-                ('d', Some(g), None) => {
-                    if let Some(slot) = guards.get_mut(g) {
-                        drop(slot.take());
+                ('h', Some(h), Some(i)) => {
+                    if live(&handles, h) {
+                        guards.push(Some(Box::new(MergeOnDrop::new(i.call().close(), handles[h].as_ref().unwrap().clone()))));
+                    }
+                }
+                ('d' | 'u' | 'j', Some(g), None) => {
+                    if let Some(g) = guards.get_mut(g).and_then(|s| s.take()) {
+                        drop_guard(t.tag, g);
                     }
                 }
                 ('F', Some(h), None) => {
@@ -1172,10 +1234,18 @@ fn expected_epochs(c: &Case) -> (Vec<Vec<In>>, Vec<In>) {
     let mut raw = vec![];
     match c.pipeline() {
         "keyed" | "tee" => {
+            let mut guards: Vec<Option<In>> = vec![];
             for t in &c.toks {
-                match (t.tag, &t.input) {
-                    ('f', _) => epochs.push(std::mem::take(&mut cur)),
-                    (_, Some(i)) => {
+                match (t.tag, t.idx, &t.input) {
+                    ('f', _, _) => epochs.push(std::mem::take(&mut cur)),
+                    ('g' | 'h', _, Some(i)) => guards.push(Some(i.clone())),
+                    ('d' | 'u' | 'j', Some(g), _) => {
+                        // a guard going out of scope merges its entry, whatever the cause
+                        if let Some(Some(i)) = guards.get_mut(g).map(|s| s.take()) {
+                            cur.push(i);
+                        }
+                    }
+                    (_, _, Some(i)) => {
                         cur.push(i.clone());
                         raw.push(i.clone());
                     }
@@ -1198,9 +1268,9 @@ fn expected_epochs(c: &Case) -> (Vec<Vec<In>>, Vec<In>) {
             let mut guards: Vec<Option<In>> = vec![];
             for t in &c.toks {
                 match (t.tag, t.idx, &t.input) {
-                    ('g', _, Some(i)) => guards.push(Some(i.clone())),
+                    ('g' | 'h', _, Some(i)) => guards.push(Some(i.clone())),
                     ('m', _, Some(i)) => cur.push(i.clone()),
-                    ('d', Some(g), _) => {
+                    ('d' | 'u' | 'j', Some(g), _) => {
                         if let Some(Some(i)) = guards.get_mut(g).map(|s| s.take()) {
                             cur.push(i);
                         }
@@ -1221,8 +1291,8 @@ fn expected_epochs(c: &Case) -> (Vec<Vec<In>>, Vec<In>) {
                         cur.push(i.clone());
                         raw.push(i.clone());
                     }
-                    ('g', _, Some(i)) if live => guards.push(Some(i.clone())),
-                    ('d', Some(g), _) => {
+                    ('g' | 'h', _, Some(i)) if live => guards.push(Some(i.clone())),
+                    ('d' | 'u' | 'j', Some(g), _) => {
                         if let Some(Some(i)) = guards.get_mut(g).map(|s| s.take()) {
                             cur.push(i.clone());
                             raw.push(i);
@@ -1527,15 +1597,38 @@ fn gen_input(rng: &mut Rng, nasty: bool) -> In {
     }
 }
 
+/// how a guard goes out of scope: plain drop, unwinding caught on this thread, unwinding on a joined thread
+fn drop_tag(rng: &mut Rng) -> char {
+    match rng.below(10) {
+        0..=4 => 'd',
+        5..=7 => 'u',
+        _ => 'j',
+    }
+}
+
+/// guard kind: `g` CloseAndMergeOnDrop (`close_and_merge`), `h` MergeOnDrop over the closed entry
+fn guard_tag(rng: &mut Rng) -> char {
+    if rng.chance(3, 5) { 'g' } else { 'h' }
+}
+
 fn gen_case(rng: &mut Rng, pipeline: &str, nasty: bool, max_len: u64) -> Case {
     let n = if rng.chance(1, 10) { rng.range(0, 2) } else { rng.range(1, max_len) };
     let mut toks = vec![];
     match pipeline {
         "keyed" | "tee" => {
             let pflush = rng.range(1, 6);
+            let mut kguards = 0usize;
             for _ in 0..n {
                 if rng.chance(pflush, 20) {
                     toks.push(Tok::new('f', None, None));
+                } else if pipeline == "keyed" && rng.chance(1, 4) {
+                    // merge-on-drop guards over a `RootSink` in front of the keyed aggregator
+                    if kguards > 0 && rng.chance(1, 2) {
+                        toks.push(Tok::new(drop_tag(rng), Some(rng.below(kguards as u64 + if nasty { 1 } else { 0 }) as usize), None));
+                    } else {
+                        toks.push(Tok::new(guard_tag(rng), None, Some(gen_input(rng, nasty))));
+                        kguards += 1;
+                    }
                 } else {
                     let tag = if pipeline == "keyed" && rng.chance(1, 3) { 'r' } else { 'm' };
                     toks.push(Tok::new(tag, None, Some(gen_input(rng, nasty))));
@@ -1556,10 +1649,10 @@ fn gen_case(rng: &mut Rng, pipeline: &str, nasty: bool, max_len: u64) -> Case {
             for _ in 0..n {
                 match rng.below(5) {
                     0 | 1 => {
-                        toks.push(Tok::new('g', None, Some(gen_input(rng, nasty))));
+                        toks.push(Tok::new(guard_tag(rng), None, Some(gen_input(rng, nasty))));
                         guards += 1;
                     }
-                    2 if guards > 0 => toks.push(Tok::new('d', Some(rng.below(guards as u64 + if nasty { 1 } else { 0 }) as usize), None)),
+                    2 if guards > 0 => toks.push(Tok::new(drop_tag(rng), Some(rng.below(guards as u64 + if nasty { 1 } else { 0 }) as usize), None)),
                     _ => toks.push(Tok::new('m', None, Some(gen_input(rng, nasty)))),
                 }
             }
@@ -1577,12 +1670,12 @@ fn gen_case(rng: &mut Rng, pipeline: &str, nasty: bool, max_len: u64) -> Case {
                 match rng.below(20) {
                     0..=7 => toks.push(Tok::new('s', Some(h), Some(gen_input(rng, nasty)))),
                     8..=10 => {
-                        toks.push(Tok::new('g', Some(h), Some(gen_input(rng, nasty))));
+                        toks.push(Tok::new(guard_tag(rng), Some(h), Some(gen_input(rng, nasty))));
                         if live {
                             guards += 1;
                         }
                     }
-                    11..=12 if guards > 0 => toks.push(Tok::new('d', Some(rng.below(guards as u64) as usize), None)),
+                    11..=12 if guards > 0 => toks.push(Tok::new(drop_tag(rng), Some(rng.below(guards as u64) as usize), None)),
                     13..=15 => toks.push(Tok::new('F', Some(h), None)),
                     16..=17 => {
                         toks.push(Tok::new('c', Some(h), None));
